@@ -40,7 +40,7 @@ var polluters = map[string]string{
 	"patchjson":     `JSON.stringify = function() { return "x"; }; Object.keys = function() { return ["evil"]; }; return _.bindings;`,
 	"replaceenv":    `_.out = 5; _.evil = 1; var b = _.bindings; _.bindings = {evil: 1}; return b;`,
 	"mutatenested":  `_.bindings.n.k = 99; _.bindings.arr.push(7); _.bindings.n.deep.z = [1]; delete _.bindings.gone; return {ok: 1};`,
-	"mutateprops":   `_.props.top = 1; if (_.props.n) { _.props.n.k = 2; _.props.n.added = {x: 1}; } if (_.props.list) { _.props.list.push(9); } if (_.props.labels) { _.props.labels.env = "x"; } if (_.props.peers) { _.props.peers[0] = "x"; } if (_.props.rows) { _.props.rows[0].r = "x"; } return _.bindings;`,
+	"mutateprops":   `_.props.top = 1; if (_.props.n) { _.props.n.k = 2; _.props.n.added = {x: 1}; } if (_.props.list) { _.props.list.push(9); } if (_.props.labels) { _.props.labels.env = "x"; } if (_.props.peers) { _.props.peers[0] = "x"; } if (_.props.rows) { _.props.rows[0].r = "x"; } if (_.props.attrs) { _.props.attrs.deep.z.push(9); _.props.attrs.deep.w = 1; } if (_.props.queue) { _.props.queue[0].c = 7; _.props.queue[1].push(8); } return _.bindings;`,
 	"throwafter":    `polluted = 1; Object.prototype.polluted = 1; _.bindings.n.k = 98; throw "boom";`,
 	"emitandmutate": `var m = {a: {b: 1}}; _.out(m); m.a.b = 2; _.bindings.n.k = 97; return _.bindings;`,
 	// (also for bindings that are empty: there is something to modify - the map itself)
@@ -83,8 +83,14 @@ func freshProps() core.StepProps {
 	}
 	return core.StepProps{"mid": "m1", "n": map[string]interface{}{"k": float64(1)}, "list": []interface{}{float64(1)},
 		// containers of other Go types
-		"labels": map[string]string{"env": "prod"}, "peers": []string{"p1", "p2"}, "rows": []map[string]interface{}{{"r": "one"}}}
+		"labels": map[string]string{"env": "prod"}, "peers": []string{"p1", "p2"}, "rows": []map[string]interface{}{{"r": "one"}},
+		// ... and of a host's own named types, with elements of any type
+		"attrs": hostAttrs{"k": float64(1), "deep": map[string]interface{}{"z": []interface{}{float64(1)}}},
+		"queue": hostQueue{map[string]interface{}{"c": float64(1)}, []interface{}{float64(2)}}}
 }
+
+type hostAttrs map[string]interface{}
+type hostQueue []interface{}
 
 // plainJSON: the value as generic JSON data (typed maps and slices included)
 func plainJSON(x interface{}) interface{} {
